@@ -2019,8 +2019,10 @@ def spark_check(case):
 def norms_cases(tier, seed):
     shapes = [(1, 1), (2, 2), (2, 3), (3, 2), (3, 3), (4, 4), (3, 1), (1, 4)] + ([(5, 5), (4, 6), (6, 6)] if tier == "thorough" else [])
     for (r, c) in shapes:
-        for kind in ("gen_c", "gen_r", "int", "lowrank", "unitary_like"):
-            if kind == "unitary_like" and r != c:
+        # structured special cases (added after seeded change C16-4: a Hermitian "fast path" is invisible on generic, PSD, unitary
+        # or rectangular matrices): indefinite Hermitian matrices whose largest |eigenvalue| is negative, real symmetric and complex
+        for kind in ("gen_c", "gen_r", "int", "lowrank", "unitary_like", "herm_indef_r", "herm_indef_c", "herm_psd", "antiherm", "normal"):
+            if kind in ("unitary_like", "herm_indef_r", "herm_indef_c", "herm_psd", "antiherm", "normal") and r != c:
                 continue
             for k in range(1, min(r, c) + 2):
                 for p in (1, 2, 3, "inf"):
@@ -2038,6 +2040,18 @@ def _norm_matrix(case):
         return np.arange(1, r * c + 1, dtype=np.int64).reshape(r, c) - 3
     if kind == "lowrank":
         return np.outer(np.arange(1, r + 1), np.arange(1, c + 1) * (1 + 1j))
+    if kind in ("herm_indef_r", "herm_indef_c", "herm_psd", "antiherm", "normal"):
+        spec = np.array([-5.0, 1.0, 2.0, -0.5, 3.0, -4.0][:r]) if kind != "herm_psd" else np.arange(1.0, r + 1)
+        if kind == "herm_indef_r":
+            u = cat.generic_orthogonal(r, 0) if r > 1 else np.eye(1)
+        else:
+            u = cat.generic_unitary(r, 0) if r > 1 else np.eye(1)
+        if kind == "normal":
+            spec = spec * np.exp(1j * np.arange(r))
+        m = (u * spec) @ u.conj().T
+        if kind == "antiherm":
+            return 1j * (m + m.conj().T) / 2
+        return m if kind == "normal" else (m + m.conj().T) / 2
     return cat.generic_unitary(r, 0) * 1.5
 
 
